@@ -2,7 +2,7 @@
 
 package main
 
-// C20 (interpolation): the configuration file is passed through os.Expand(data, expandVars) before it
+// C20 (interpolation): readConfigFile passes the file's text through os.Expand(data, expandVars) before it
 // is decoded. Documented variables: ${HOST} (examples/carbon-relay-ng.ini, CHANGELOG "$HOST") and
 // ${GRAFANA_NET_ADDR}, ${GRAFANA_NET_API_KEY}, ${GRAFANA_NET_USER_ID} (docs/config.md). Everything else
 // that contains a '$' -- in particular the $1 / ${1} group references of rewriter and aggregation
@@ -14,7 +14,17 @@ import (
 	"strings"
 )
 
-func verifC20Interpolate(s string) string { return os.Expand(s, expandVars) }
+// verifC20Interpolate runs the real entry point: the file's text as main hands it to the TOML decoder.
+func verifC20Interpolate(s string) string {
+	path := os.TempDir() + "/verif-c20-config.ini"
+	f, err := os.Create(path)
+	if err != nil {
+		panic(err)
+	}
+	f.WriteString(s)
+	f.Close()
+	return readConfigFile(path)
+}
 
 func verifC20Host() string {
 	h, _ := os.Hostname()
